@@ -14,7 +14,8 @@ EXPLANATION = (
     "archive footer writer; (R3) every Result produced in a command body or main is propagated and main returns "
     "a Result; (R4) the list iterated by the extraction loop is the request list or the archive-order prefix "
     "filter, with no sort/dedup/hash container on the way; (R5) the stdout and -o branches use the same "
-    "per-sample writer.  The CLI is not run.")
+    "per-sample writer; (R10) the samples of a PanSN file are the header prefixes sample#haplotype (shared with C19-G8).  "
+    "The CLI is not run.")
 UNDECIDED = "byte equality with concatenated single-sample outputs (follows from R1/R4/R5 plus C01)"
 
 TRUNC = re.compile(r"^std::fs::File::create$|^std::fs::write$|^std::fs::OpenOptions::open$|^std::fs::File::create_new$|^std::fs::File::options$")
